@@ -7,8 +7,9 @@ LEVEL = "proof"
 CONTRACT_MODULES = ["contracts.c16_register"]
 TARGETS = ["RegisterMethod"]
 ASSUMPTIONS = [
-    "every generated method / attribute reaches the class through spec_class.register_method (checked syntactically on every run: no other setattr on "
-    "the decorated class in spec_class.bootstrap except the documented metadata slots)",
+    "every generated method reaches the class through spec_class.register_method (syntactic obligation checked on every run: inside class spec_class the "
+    "only other setattr site is build_attr_spec, which replaces a managed attribute's declaration by its default; direct `cls.x = ...` assignments of "
+    "the metadata placeholders are not helpers)",
     "the class's own namespace is the `cdict` component of the heap model; `name in cls.__dict__` reads it, setattr(cls, name, v) writes it; a method's "
     "__set_name__ hook is a pure callback (A-CB)",
     "which helpers are offered (four scalar helpers per managed attribute, four element helpers named after the singular form, three top-level helpers), "
@@ -18,8 +19,31 @@ EXPLANATION = ("register_method is proved for every class, name and method objec
                "(unless it is one of the library's __spec_class* slots), otherwise exactly that one name is defined; no other name and no other class is touched")
 
 
+GATE_ALLOWED = {"register_method": "the gate itself", "build_attr_spec": "consumes Attr/Field declarations: the managed attribute's default replaces the declaration object"}
+
+
+def single_gate(ft):
+    """syntactic obligation: inside class spec_class, setattr(...) calls occur only in register_method and in the documented site that
+    rewrites a managed attribute's declaration into its default"""
+    import ast
+    mod = ft.modules["spec_classes.spec_class"]
+    tree = ast.parse(open(mod.path).read())
+    sites = []
+    for cls in [n for n in tree.body if isinstance(n, ast.ClassDef) and n.name == "spec_class"]:
+        for fn in [n for n in ast.walk(cls) if isinstance(n, ast.FunctionDef)]:
+            for call in [n for n in ast.walk(fn) if isinstance(n, ast.Call) and isinstance(n.func, ast.Name) and n.func.id == "setattr"]:
+                sites.append((fn.name, call.lineno))
+    bad = [s for s in sites if s[0] not in GATE_ALLOWED]
+    rec = {"name": "syntactic.single-gate", "kind": "syntactic obligation (AST of spec_classes/spec_class.py)", "sites": sites}
+    if bad or not any(s[0] == "register_method" for s in sites):
+        rec.update(status="error", detail="setattr sites outside the gate: %r - the proof of register_method no longer covers every write to the class" % (bad,))
+    else:
+        rec.update(status="ok", evaluations=len(sites), distinct=len(sites))
+    return rec
+
+
 def extra_checks(ft, tier, seed):
-    out = [harness.codecheck(["spec_classes.spec_class:spec_class.register_method", "spec_classes.spec_class:spec_class.register_methods"])]
+    out = [harness.codecheck(["spec_classes.spec_class:spec_class.register_method", "spec_classes.spec_class:spec_class.register_methods"]), single_gate(ft)]
     out.append(harness.standin("standin.decoration-corpus", "bounded/c16.py", ["--standin", "-", os.path.join(harness.VERIF, "replays", PROPERTY)],
                                "helper set per attribute kind, singular naming and collision fallback, private attributes, lazy method descriptors, "
                                "reachability of __spec_class_init__/repr/eq",
